@@ -27,7 +27,9 @@ SHARED = ['nsum', 'nsum_alt', 'nsum_geom', 'nsum_fin', 'nsum_levin', 'nsum_geom_
           'const_euler', 'exp', 'ln', 'sin', 'atan', 'erf', 'ellipk', 'lambertw', 'polylog', 'grampoint', 'siegeltheta', 'nzeros',
           'riemannr', 'primezeta', 'secondzeta', 'backlunds', 'psi', 'factorial', 'loggamma', 'fib', 'det', 'inverse', 'lu_solve', 'expm',
           # the routines that reach into another context through ctx._iv / ctx._fp / ctx._mp, weighted
-          'primepi2', 'primepi2', 'primepi2', 'zetazero', 'nzeros', 'zeta_rs_hi', 'siegelz_hi']
+          'primepi2', 'primepi2', 'primepi2', 'zetazero', 'nzeros', 'zeta_rs_hi', 'siegelz_hi',
+          # accelerator / rule objects created per call (re-entered from a callback in another context), weighted
+          'nsum_levin', 'nsum_levin', 'nsum_levin', 'nsum_geom_levin', 'nsum_geom_levin', 'quad_method', 'quad_method']
 EXCLUDE = frozenset(['rand', 'randmatrix'])
 # primepi2 returns an interval of the iv context by specification (its result depends on iv.prec: see DESIGN): it is
 # executed - it is the one mixin routine that reaches into another context - but its result is not compared
